@@ -152,3 +152,13 @@ Proof.
   specialize (H signed Hs). rewrite forallb_forall in H.
   apply FloatAxioms.Leibniz.eqb_spec. apply H. now apply nseq_in.
 Qed.
+
+Lemma C22_index_lemma bits signed f t l s :
+  (1 <= bits <= 16)%N ->
+  new_with_fn bits signed f t = Ok l ->
+  cast t (f (z2f (stored_value bits signed s))) = Some (lut_get l s).
+Proof.
+  intros Hb H.
+  rewrite <- (index_value_stored bits signed s) by lia.
+  rewrite <- x_of_index_exact; [now apply new_with_fn_get | exact Hb | apply land_mask_lt].
+Qed.
